@@ -1346,6 +1346,8 @@ impl<T: BinaryMatrix> IntermediateSymbolDecoder<T> {
     pub fn execute(&mut self) -> (Option<SymbolSlab>, Option<Vec<SymbolOps>>) {
         #[cfg(debug_assertions)]
         self.X.disable_column_access_acceleration();
+        #[cfg(all(raptorq_verif, feature = "std"))]
+        crate::verif::solver_marker(0, self.i, self.u, &self.c, &self.d, self.deferred_D_ops.len());
 
         if let Some(x_elimination_ops) = self.first_phase() {
             self.A.disable_column_access_acceleration();
